@@ -635,18 +635,34 @@ func (t *Target) gnmiRemove(n *pb.Notification) []*ctree.Leaf {
 		t.meta.ResetEntry(path[1])
 	}
 	var leaves []*ctree.Leaf
+	// Only leaves outside the metadata subtree are counted in LeafCount and
+	// AddCount when they are added, so only those are counted when removed.
+	var deleted int64
 	f := func(v interface{}) {
 		d := v.(*pb.Notification)
+		if !isMetaNotification(d) {
+			deleted++
+		}
 		leaves = append(leaves, ctree.DetachedLeaf(toDeleteNotification(d, n.GetTimestamp())))
 	}
 	t.t.WalkDeleted(path, func(v interface{}) bool { return v.(*pb.Notification).GetTimestamp() < n.GetTimestamp() }, f)
 	if len(leaves) == 0 {
 		return nil
 	}
-	deleted := int64(len(leaves))
 	t.meta.AddInt(metadata.LeafCount, -deleted)
 	t.meta.AddInt(metadata.DelCount, deleted)
 	return leaves
+}
+
+// isMetaNotification reports whether the stored notification n is a leaf of
+// the metadata subtree (decided exactly as gnmiUpdate did when it stored n).
+func isMetaNotification(n *pb.Notification) bool {
+	var suffix *pb.Path
+	if !n.GetAtomic() && len(n.GetUpdate()) > 0 {
+		suffix = n.GetUpdate()[0].GetPath()
+	}
+	p := joinPrefixAndPath(n.GetPrefix(), suffix)
+	return len(p) > 0 && p[0] == metadata.Root
 }
 
 // updateCache calls fn for each Target.
